@@ -27,6 +27,9 @@ Blocks ==
     cx2   |-> <<I(MovCx(2), 0)>>,
     p1    |-> <<Proc("pa", <<I(IncR("bx"), 0)>>)>>,
     p2    |-> <<Proc("pb", <<I(Call("pa"), 0), I(Jmp("jc", "lr"), 0), I([cls |-> "ret"], 0), Lab("lr"), I(IncR("dx"), 0)>>)>>,
+    \* a procedure that calls itself (CX counts the levels; call3 sets CX before calling it)
+    p3    |-> <<Proc("pc", <<I(IncR("si"), 0), I(Jmp("loop", "lrec"), 0), I([cls |-> "ret"], 0), Lab("lrec"), I(Call("pc"), 0)>>)>>,
+    call3 |-> <<I(MovCx(2), 0), I(Call("pc"), 0)>>,
     call1 |-> <<I(Call("pa"), 0)>>,
     call2 |-> <<I(Call("pb"), 0)>>,
     hlt   |-> <<I(Ctl("hlt"), 0)>>,
@@ -47,7 +50,8 @@ ItemsOf(bs, s) ==
 Count(bs, n) == Cardinality({j \in 1 .. Len(bs) : bs[j] = n})
 FirstIdx(bs, n) == IF \E j \in 1 .. Len(bs) : bs[j] = n THEN CHOOSE j \in 1 .. Len(bs) : bs[j] = n /\ \A i \in 1 .. j - 1 : bs[i] # n ELSE 0
 Valid(bs) ==
-  /\ Count(bs, "l1") <= 1 /\ Count(bs, "l2") <= 1 /\ Count(bs, "p1") <= 1 /\ Count(bs, "p2") <= 1
+  /\ Count(bs, "l1") <= 1 /\ Count(bs, "l2") <= 1 /\ Count(bs, "p1") <= 1 /\ Count(bs, "p2") <= 1 /\ Count(bs, "p3") <= 1
+  /\ \A j \in 1 .. Len(bs) : bs[j] = "call3" => FirstIdx(bs, "p3") # 0 /\ FirstIdx(bs, "p3") < j
   /\ ((\E j \in 1 .. Len(bs) : bs[j] \in {"jmp1", "jnc1"}) => Count(bs, "l1") = 1)
   /\ ((\E j \in 1 .. Len(bs) : bs[j] \in {"jc2", "loop2"}) => Count(bs, "l2") = 1)
   /\ \A j \in 1 .. Len(bs) : bs[j] = "call1" => FirstIdx(bs, "p1") # 0 /\ FirstIdx(bs, "p1") < j
